@@ -139,7 +139,7 @@ func (g *Graph) Canon() error {
 	}
 	g.renumber(on.Mapping(), false)
 
-	if on.Dupe {
+	if on.hasDupe() {
 		// If there were duplicate nodes, the prior sort did not yield a
 		// canonical ordering. Perform a more expensive BFS canonicalisation.
 		// Unfortunately this needs to be done after the edge/root renumbering
@@ -234,7 +234,7 @@ func (g *Graph) canonBFS() ([]int, error) {
 		}
 		if len(onScratch.Nodes) > 1 {
 			sort.Sort(&onScratch)
-			if onScratch.Dupe {
+			if onScratch.hasDupe() {
 				return nil, fmt.Errorf("graph node %v has duplicate direct dependency", g.Nodes[n].Version)
 			}
 		}
@@ -258,9 +258,21 @@ type orderedNodes struct {
 	// Quicksort may move the root away from Nodes[0], even though Less(0, x) is true ∀x > 0.
 	// Track any root changes; by the end of the sort this should be zero.
 	Root int
+}
 
-	// Dupe is set to true if a duplicate Node is found during sorting.
-	Dupe bool
+// hasDupe reports whether two of the Nodes are equal. It must be called after
+// sorting: equal nodes are then adjacent, except that a kept root may be equal
+// to a node anywhere in the slice.
+func (n *orderedNodes) hasDupe() bool {
+	for i := 1; i < len(n.Nodes); i++ {
+		if n.Nodes[i-1].Compare(n.Nodes[i]) == 0 {
+			return true
+		}
+		if n.KeepZero && i > 1 && n.Nodes[0].Compare(n.Nodes[i]) == 0 {
+			return true
+		}
+	}
+	return false
 }
 
 func newOrderedNodes(nodes []Node) *orderedNodes {
@@ -293,17 +305,11 @@ func (n *orderedNodes) Swap(i, j int) {
 	}
 }
 func (n *orderedNodes) Less(i, j int) bool {
-	// Always compare so duplicates can be discovered, even duplicates of the root.
-	ni, nj := n.Nodes[i], n.Nodes[j]
-	c := ni.Compare(nj)
-	if c == 0 {
-		n.Dupe = true
-	}
 	if n.KeepZero && (i == n.Root || j == n.Root) {
 		// The root is less than every other element.
 		return i == n.Root
 	}
-	return c < 0
+	return n.Nodes[i].Compare(n.Nodes[j]) < 0
 }
 
 func (n Node) Compare(o Node) int {
